@@ -173,6 +173,20 @@ def audit_props(pid):
                 blocks=n_blocks)
 
 
+def coqchk(pid):
+    """Independent re-check of the compiled closure of Props/<pid>.vo (thorough tier). Returns dict(ok, axioms, log)."""
+    with Lock("coq"):
+        rc, out, dt = run(["coqchk", "-silent", "-o", "-Q", "theories", "KV", "KV.Props." + pid], cwd=COQ, timeout=3000)
+    m = re.search(r"\* Axioms:\s*(.*?)\n\s*\n\* Constants/Inductives relying on type-in-type:\s*(.*?)\n\s*\n\* Constants/Inductives relying on unsafe \(co\)fixpoints:\s*(.*?)\n\s*\n\* Inductives whose positivity is assumed:\s*(.*?)\n", out, re.S)
+    axioms = []
+    clean = False
+    if m:
+        ax = m.group(1).strip()
+        axioms = [] if ax == "<none>" else [l.strip() for l in ax.splitlines() if l.strip()]
+        clean = all(m.group(i).strip() == "<none>" for i in (2, 3, 4))
+    return dict(ok=(rc == 0 and m is not None and clean), axioms=axioms, wall_s=round(dt, 1), log=out[-2000:])
+
+
 # ------------------------------------------------------------------------------- cases
 
 LIST_RE = re.compile(r"^(M|V)\s*=\s*(.*?)\n\s*:\s*list nat", re.M | re.S)
